@@ -1,5 +1,7 @@
 import Chain33Model.Model.C05
 import Chain33Model.Proofs.C01Set
+import Chain33Model.Proofs.C01Consistent
+import Chain33Model.Proofs.C01Batch
 /-! Helper lemmas for C05: leaf-count key round trip, the deletion rule on version lists, subtrees, and the index as
 an abstract transition system. -/
 namespace C05
@@ -344,5 +346,72 @@ theorem IdxInv_emptyBlock_partial (s : IState) (t h : Nat) (hi : IdxInv s t)
     have h2 := hchain b hb
     exact (hi e (by omega)).mpr (by simp only [chainEntries, List.mem_flatMap]; exact ⟨b, hb, hm⟩)
 
+
+/-! ### one pruning run against one retained state (composition of the rule-level and the tree-level facts) -/
+
+theorem isSub_of_mem_subnodes (T : Node) : ∀ x ∈ subnodes T, IsSub x T := by
+  induction T with
+  | leaf k v m => intro x hx; simp [subnodes] at hx; subst hx; simp [IsSub]
+  | inner k h s l r m ihl ihr =>
+    intro x hx
+    simp only [subnodes, List.mem_cons, List.mem_append] at hx
+    simp only [IsSub]
+    rcases hx with rfl | hx | hx
+    · exact Or.inl rfl
+    · exact Or.inr (Or.inl (ihl x hx))
+    · exact Or.inr (Or.inr (ihr x hx))
+
+/-- what one pruning run deletes for one key: the leaf records of the versions `delRule` selects and the parent
+records listed in their `PruneData`. -/
+def deletedFor (cur ph : Nat) (vs : List HashData) (par : HashData → List Bytes) : List Bytes :=
+  (delRule (eligible cur ph vs)).flatMap (fun v => v.hash :: par v)
+
+/-- **no node of a retained state is deleted by a pruning run.**
+`T` = a current-chain state at height `H > cur - ph` (`hH`).  Hypotheses, per key `K` with index versions `idx K`
+(newest first, one per height: `hdesc`):
+* `hidx` (the semantic content of `IdxInv`): the leaf `T` holds for `K` is the version `currentAt (idx K) H`, i.e. the
+  newest indexed version not above `H`;
+* `hpar`: every key listed in the `PruneData` of a version `v` of `K` is the key of a node that has the leaf `K@v`
+  below it (what `SaveNode` records: the `parentNode` chain);
+* `hdist`: the indexed versions of `K` have distinct leaf keys (they carry the height prefix);
+* `hinj` (content addressing of node keys): among the nodes of the store (`U`), equal keys mean equal nodes.
+Conclusion: no node of `T` has a key in `deletedFor …`. -/
+theorem retained_nodes_survive (T : Node) (hst : ST T) (cur ph H : Nat) (hH : cur < H + ph)
+    (K : Bytes) (vs : List HashData) (hdesc : Desc vs) (par : HashData → List Bytes)
+    (hidx : ∀ ℓ, leafNode T K = some ℓ → ∃ v, currentAt vs H = some v ∧ ℓ.info.hk = some v.hash)
+    (U : Node → Prop) (hU : ∀ x ∈ subnodes T, U x)
+    (hpar : ∀ v ∈ vs, ∀ p ∈ par v, ∃ P val m, U P ∧ P.info.hk = some p ∧ (Node.leaf K val m).info.hk = some v.hash ∧
+        IsSub (.leaf K val m) P)
+    (hleaf : ∀ v ∈ vs, ∃ val m, U (.leaf K val m) ∧ (Node.leaf K val m).info.hk = some v.hash)
+    (hdist : ∀ a ∈ vs, ∀ b ∈ vs, a.hash = b.hash → a = b)
+    (hinj : ∀ (x y : Node) (h : Bytes), U x → U y → x.info.hk = some h → y.info.hk = some h → x = y) :
+    ∀ x ∈ subnodes T, ∀ d ∈ deletedFor cur ph vs par, x.info.hk ≠ some d := by
+  intro x hx d hd hxd
+  simp only [deletedFor, List.mem_flatMap] at hd
+  obtain ⟨v, hv, hdv⟩ := hd
+  have hvs : v ∈ vs := by
+    obtain ⟨e0, rest, he, hvr⟩ := mem_delRule hv
+    have : v ∈ eligible cur ph vs := by rw [he]; simp [hvr]
+    exact (List.mem_filter.mp this).1
+  have hxT := isSub_of_mem_subnodes T x hx
+  -- the leaf version `v` of `K` occurs in `T`
+  have hocc : ∃ val m, IsSub (.leaf K val m) T ∧ (Node.leaf K val m).info.hk = some v.hash := by
+    simp only [List.mem_cons] at hdv
+    rcases hdv with rfl | hp
+    · obtain ⟨val, m, hu, hm⟩ := hleaf v hvs
+      have : x = .leaf K val m := hinj _ _ _ (hU x hx) hu hxd hm
+      subst this
+      exact ⟨val, m, hxT, hm⟩
+    · obtain ⟨P, val, m, hu, hP, hm, hsub⟩ := hpar v hvs d hp
+      have : x = P := hinj _ _ _ (hU x hx) hu hxd hP
+      subst this
+      exact ⟨val, m, hsub.trans hxT, hm⟩
+  obtain ⟨val, m, hsub, hm⟩ := hocc
+  have hl := leafNode_of_sub T hst K val m hsub
+  obtain ⟨w, hw, hwk⟩ := hidx _ hl
+  rw [hm] at hwk
+  have : v = w := hdist v hvs w (currentAt_newest hdesc hw).1 (Option.some.inj hwk)
+  subst this
+  exact delRule_spares_current vs hdesc cur ph H hH v hw hv
 
 end C05
